@@ -53,6 +53,8 @@ type Job struct {
 	// Cross: in the thorough tier the job is run again on z3 5.1 (z3-new) and cvc5 and the
 	// path counts and counterexample classes are compared.
 	Cross bool
+	// Golden: auxiliary concrete job over the repository's example programs (golden.go).
+	Golden *GoldenSpec
 }
 
 type JobResult struct {
@@ -258,6 +260,9 @@ func (w *worker) runOnePath(job *Job, fn *ssa.Function, res *JobResult) {
 
 // RunJob explores all feasible paths of the job's entry with nw workers.
 func RunJob(prog *ssa.Program, job *Job, nw int, twin bool, solverBin []string) (*JobResult, error) {
+	if job.Golden != nil {
+		return RunGolden(prog, job, nw, solverBin)
+	}
 	t0 := time.Now()
 	pkg := prog.ImportedPackage(job.Pkg)
 	if pkg == nil {
